@@ -4,7 +4,7 @@ from hypothesis import strategies as st
 
 from pbt import ir, jets, refsolve, render, strategies as S
 from pbt.harness import PropertyViolation, Inconclusive
-from pbt.util import arr, cmp, pretty, call
+from pbt.util import arr, cmp, pretty, call, conv_fn
 
 ID = "C13"
 TITLE = "Sensitivity systems are the variational equations of the model"
@@ -37,7 +37,8 @@ def strategy(tier, mode=None):
         n_s, n_p = len(ir.state_names(m)), len(m["params"])
         Sv = [draw(S.fl(-2.0, 2.0, 3)) + 0.013 * i for i in range(n_s * n_p)]
         S0 = [draw(S.fl(-2.0, 2.0, 3)) + 0.017 * i for i in range(n_s * n_s)]
-        return {"part": "algebra", "model": m, "point": pt, "S": Sv, "S0": S0}
+        return {"part": "algebra", "model": m, "point": pt, "S": Sv, "S0": S0,
+                "conv": draw(st.sampled_from(["state-first", "time-first"]))}
 
     @st.composite
     def integrated(draw):
@@ -75,6 +76,8 @@ def _algebra(case, rec):
     d = ir.derivatives(m, x, t, pt["theta"], order)
     if not all(np.isfinite(v).all() for v in d.values()):
         raise Inconclusive("reference not finite")
+    conv = case.get("conv", "state-first")      # f(z, t, ...) or the time-first wrapper f_T(t, z, ...) used by the integrators
+    rec.label("convention:" + conv)
     Smat = np.array(case["S"], float).reshape(n_s, n_p)
     S0 = np.array(case["S0"], float).reshape(n_s, n_s)
     rec.label("nS:%d" % n_s, "nP:%d" % n_p)
@@ -86,11 +89,11 @@ def _algebra(case, rec):
             vecS = Smat.reshape(-1) if by_state else Smat.reshape(-1, order="F")
             z = np.concatenate([x, vecS])
             want = np.concatenate([d["f"], dS.reshape(-1) if by_state else dS.reshape(-1, order="F")])
-            got = arr(call("C13/ode_and_sensitivity/" + tag, case, model.ode_and_sensitivity, z, t, by_state), want.shape,
+            got = arr(call("C13/ode_and_sensitivity/" + tag, case, conv_fn(model, "ode_and_sensitivity", conv), z, t, by_state), want.shape,
                       "ode_and_sensitivity", "C13/ode_and_sensitivity/" + tag, case)
             cmp(got, want, "ode_and_sensitivity(%s)" % tag, "C13/ode_and_sensitivity/" + tag, case, 1e-8)
             A = _ref_rhs_jac(d, Smat, n_s, n_p, by_state)
-            gotA = arr(call("C13/ode_and_sensitivity_jacobian/" + tag, case, model.ode_and_sensitivity_jacobian, z, t, by_state),
+            gotA = arr(call("C13/ode_and_sensitivity_jacobian/" + tag, case, conv_fn(model, "ode_and_sensitivity_jacobian", conv), z, t, by_state),
                        A.shape, "ode_and_sensitivity_jacobian", "C13/ode_and_sensitivity_jacobian/" + tag, case)
             cmp(gotA, A, "ode_and_sensitivity_jacobian(%s)" % tag, "C13/ode_and_sensitivity_jacobian/" + tag, case, 1e-8, 1e-10)
         z = np.concatenate([x, Smat.reshape(-1, order="F")])
@@ -99,13 +102,13 @@ def _algebra(case, rec):
             for k in range(n_p):
                 for l in range(n_s):
                     want[k * n_s + i, l] = sum(d["Hxx"][i, j, l] * Smat[j, k] for j in range(n_s))
-        got = arr(call("C13/sens_jacobian_state", case, model.sens_jacobian_state, z, t), want.shape, "sens_jacobian_state",
+        got = arr(call("C13/sens_jacobian_state", case, conv_fn(model, "sens_jacobian_state", conv), z, t), want.shape, "sens_jacobian_state",
                   "C13/sens_jacobian_state", case)
         cmp(got, want, "sens_jacobian_state", "C13/sens_jacobian_state", case, 1e-8, 1e-10)
     # initial-value variant (also for models without parameters)
     z = np.concatenate([x, Smat.reshape(-1, order="F"), S0.reshape(-1, order="F")])
     want = np.concatenate([d["f"], dS.reshape(-1, order="F"), dS0.reshape(-1, order="F")])
-    got = arr(call("C13/ode_and_sensitivityIV", case, model.ode_and_sensitivityIV, z, t), want.shape, "ode_and_sensitivityIV",
+    got = arr(call("C13/ode_and_sensitivityIV", case, conv_fn(model, "ode_and_sensitivityIV", conv), z, t), want.shape, "ode_and_sensitivityIV",
               "C13/ode_and_sensitivityIV", case)
     cmp(got, want, "ode_and_sensitivityIV", "C13/ode_and_sensitivityIV", case, 1e-8)
     n1 = n_s + n_s * n_p
@@ -119,7 +122,7 @@ def _algebra(case, rec):
                 A[r, l] = sum(d["Hxx"][i, j, l] * S0[j, c] for j in range(n_s))
             for j in range(n_s):
                 A[r, n1 + c * n_s + j] += d["J"][i, j]
-    gotA = arr(call("C13/ode_and_sensitivityIV_jacobian", case, model.ode_and_sensitivityIV_jacobian, z, t), A.shape,
+    gotA = arr(call("C13/ode_and_sensitivityIV_jacobian", case, conv_fn(model, "ode_and_sensitivityIV_jacobian", conv), z, t), A.shape,
                "ode_and_sensitivityIV_jacobian", "C13/ode_and_sensitivityIV_jacobian", case)
     cmp(gotA, A, "ode_and_sensitivityIV_jacobian", "C13/ode_and_sensitivityIV_jacobian", case, 1e-8, 1e-10)
     if n_s != n_p and n_s >= 2 and n_p >= 2:
